@@ -3,7 +3,10 @@
 For every record type (virtual lines included; user-defined record types registered with Line.register_extension
 whose fields refer to segments and to lines of another extension type, kinds ZA / ZB / ZBv, see register_extensions:
 one of them files its lines in a back-reference collection of the segment which another extension has already
-declared), stand-alone and connected, with tags of all seven datatypes,
+declared; custom records - lines of a record type the library does not know, whose positional fields are named
+field1, field2, ... per instance - with 2, with 10 and with 25 positional fields, kinds X / X10 / X25: from the tenth
+field on the numeric order of the names is not their alphabetical order, and the written form lists the fields in the
+order of positional_fieldnames), stand-alone and connected, with tags of all seven datatypes,
 levels 0-3, and the three representation states a field can be in when the line is cloned - never read (at level 0 the
 delayed-parsing datatypes are then still stored as strings), all fields read (parsed), or (random cases) a random
 subset of the non-reference fields re-assigned their own written form as a string (accepted at every level, parsed on
@@ -11,7 +14,9 @@ the next read):
   * clone.gfa is None, clone.is_connected() is False, no gfapy.Line is reachable from the clone's fields (references
     are rendered as identifiers: signature clone-references-line; for the extension kinds every declared reference
     field - to a segment, to a line of another extension - is covered, with the lines referred to present or not);
-  * str(clone) == str(original) and clone == original and original == clone;
+  * str(clone) == str(original) and clone == original and original == clone; a clone whose positional fields come
+    out in another order (custom records: every instance, hence also the clone, has its own list of field names) is
+    clone-written-form-differs, and the failure text then shows the two lists positional_fieldnames;
   * reading is not an edit: both stay true (both directions of ==) after the fields (all of them in the exhaustive
     cases, a random subset in the random ones) have been read in ONE copy only (the copy is a case parameter), for a
     second clone taken at that moment, after all fields of both copies have been read, and for the second clone which
@@ -48,8 +53,9 @@ from harness import lib
 from harness.props import _misc as M
 
 ID = "C19"
-RULE = ("exhaustive: 24 kinds of line (H with single and repeated tags, GFA1 S/L/C/P, comment, GFA2 S/E with CIGAR, trace and "
-        "placeholder/F/G/O/U/custom record, virtual segment, virtual link, virtual unknown line, lines of two registered "
+RULE = ("exhaustive: 26 kinds of line (H with single and repeated tags, GFA1 S/L/C/P, comment, GFA2 S/E with CIGAR, trace and "
+        "placeholder/F/G/O/U/custom record with 2, with 10 and with 25 positional fields (field10 sorts before field2), "
+        "virtual segment, virtual link, virtual unknown line, lines of two registered "
         "extension record types with reference fields to segments and to each other - sharing one back-reference "
         "collection of the segment - with resolved and with unresolved references), each with tags of the 7 "
         "datatypes (two B subtypes), stand-alone and connected, levels 0-3, plus 8 kinds (GFA1 S/L/C, GFA2 S/E/E-trace/F, "
@@ -107,6 +113,24 @@ DOC3 = ["H\tVN:Z:2.0",
         "ZB\trp1\tB\tan1\tSC:i:3\t" + TAGS,
         "ZB\trp2\tQ\tan9\t" + TAGS]
 
+# Custom records (a record type which the library does not know) with many positional fields.  Their names field1,
+# field2, ... are kept per instance; from ten fields on, the numeric order of the names (the order of the columns) is
+# not the alphabetical one (field1, field10, field11, field2, ...).  Distinct values in every column; record types Y and
+# W, which no other document contains.
+def custom_text(rt, n):
+    return "\t".join([rt] + ["v%d" % i for i in range(1, n + 1)]) + "\t" + TAGS
+
+
+DOC4 = ["H\tVN:Z:2.0",
+        "S\tA\t4\tACGT",
+        custom_text("Y", 10),
+        custom_text("W", 25)]
+
+
+def custom_of_type(g, rt):
+    return [l for l in g.custom_records if l.record_type == rt][0]
+
+
 # kind -> (version, text for the stand-alone form or None, finder in the connected form or None)
 KINDS = {
     "H": ("gfa1", DOC1[0], lambda g: g.header),
@@ -128,6 +152,8 @@ KINDS = {
     "O": ("gfa2", DOC2[8], lambda g: g.line("o")),
     "U": ("gfa2", DOC2[9], lambda g: g.line("u")),
     "X": ("gfa2", DOC2[10], lambda g: g.custom_records[0]),
+    "X10": ("gfa2", DOC4[2], lambda g: custom_of_type(g, "Y")),
+    "X25": ("gfa2", DOC4[3], lambda g: custom_of_type(g, "W")),
     "vU": ("gfa2", None, lambda g: g.line("zz")),
     # declared datatypes (level 0 only)
     "S1d": ("gfa1", DOC1D[2], lambda g: g.segment("A")),
@@ -146,6 +172,7 @@ KINDS = {
 KIND_LIST = list(KINDS)
 DECLARED = {"S1d", "Ld", "Cd", "Hd", "S2d", "Ed", "Etd", "Fd"}
 EXTENSION = {"ZA", "ZB", "ZBv"}
+MANY_FIELDS = {"X10", "X25"}
 EXT_REFERENCES = {"ZA": ("sid",), "ZB": ("sid", "aid"), "ZBv": ("sid", "aid")}      # the declared reference fields
 
 
@@ -186,6 +213,8 @@ def doc_of(kind):
     ver = KINDS[kind][0]
     if kind in EXTENSION:
         return DOC3
+    if kind in MANY_FIELDS:
+        return DOC4
     if kind in DECLARED:
         return DOC1D if ver == "gfa1" else DOC2D
     return DOC1 if ver == "gfa1" else DOC2
@@ -415,7 +444,8 @@ def edit_sites(gfapy, line):
               "path_name": "N2", "eid": "N3", "gid": "N4", "pid": "N5", "beg1": 1, "end1": 2, "beg2": 1, "end2": 2, "alignment": "9M",
               "s_beg": 1, "s_end": 2, "f_beg": 1, "f_end": 2, "disp": 5, "var": 6, "content": "changed", "from_segment": "N6",
               "to_segment": "N7", "sid1": "N6+", "sid2": "N7-", "external": "N8-", "segment_names": "N6+,N7-", "overlaps": "5M",
-              "items": "N6+ N7-", "field1": "changed", "aid": "N9", "rid": "N10"}
+              "items": "N6+ N7-", "field1": "changed", "aid": "N9", "rid": "N10",
+              "field2": "changed2", "field9": "changed9", "field10": "changed10", "field11": "changed11", "field25": "changed25"}
     for f in pf:
         if f in posval:
             E.append(("set(%r)" % f, lambda f=f: line.set(f, posval[f])))
@@ -498,7 +528,13 @@ def oracle(case):
     if s_clone.startswith("<<str raised") and not s_line.startswith("<<str raised"):
         F.append("clone-unwritable: %s: str(clone) raises (%s), original is %r" % (what, s_clone, s_line))
     elif s_clone != s_line:
-        F.append("clone-written-form-differs: %s: original %r clone %r" % (what, s_line, s_clone))
+        names = ""
+        try:
+            if list(c.positional_fieldnames) != list(line.positional_fieldnames):
+                names = " (positional_fieldnames: original %r clone %r)" % (list(line.positional_fieldnames), list(c.positional_fieldnames))
+        except Exception:
+            pass
+        F.append("clone-written-form-differs: %s: original %r clone %r%s" % (what, s_line, s_clone, names))
     # ---- the datatype letter of every tag is part of the written form
     for t in tagnames(line):
         try:
